@@ -117,6 +117,20 @@ def check_state(desc, sc, pats, flagsets, res):
                                                {'scandir_calls': len(mon.log)}))
                 continue
             res.outcomes.add('listings=%d' % min(len(mon.log), 9))
+            # (a0) the same rule whichever way the root is given: a directory descriptor instead of a path
+            if len(text) % 2 == 0:
+                fd = os.open(sc.root, os.O_RDONLY | os.O_DIRECTORY)
+                try:
+                    with fsx.ScandirMonitor(HORIZON):
+                        try:
+                            got_fd = G.glob(text, flags=fscommon.gflags(fs), dir_fd=fd)
+                        except fsx.Horizon:
+                            got_fd = None
+                finally:
+                    os.close(fd)
+                res.n['evaluations'] += 1
+                if got_fd is None or sorted(got_fd) != sorted(got):
+                    res.add_violation(ID, run.viol('dir_fd-differs', inp, sorted(got), got_fd if got_fd is None else sorted(got_fd)))
             # (a) reference
             try:
                 ref = refglob.ref_glob(model, ast, fl)
@@ -268,6 +282,17 @@ def replay(v):
             return {'violates': got is None, 'observed': {'scandir_calls': len(mon.log)}}
         if got is None:
             return {'violates': True, 'observed': 'no termination'}
+        if k == 'dir_fd-differs':
+            fd = os.open(sc.root, os.O_RDONLY | os.O_DIRECTORY)
+            try:
+                with fsx.ScandirMonitor(HORIZON):
+                    try:
+                        got_fd = sorted(G.glob(inp['pattern'], flags=fscommon.gflags(inp['flags']), dir_fd=fd))
+                    except fsx.Horizon:
+                        got_fd = None
+            finally:
+                os.close(fd)
+            return {'violates': got_fd != sorted(got), 'observed': got_fd}
         if k == 'exclude-changes-link-rule':
             from . import c04
             cands = [c for c in c04.candidates(model, got) if not c.endswith('/') or model.isdir(c.rstrip('/'))]
